@@ -36,6 +36,9 @@ enum BvAct {
     SetBits(usize, u8, u64),
     ExtBools(u8),
     ExtPos(u8),
+    /// operations that must leave the sequence unchanged and the value usable: 0 bincode round trip, 1 conversion to
+    /// BitVector and back, 2 shrink_to_fit, 3 collect of its own iterator
+    Same(u8),
 }
 
 fn bv_start(s: BvStart) -> (BitVectorMut, Vec<bool>) {
@@ -109,6 +112,9 @@ fn bv_actions(n: usize, out: &mut Vec<BvAct>) {
     for k in 0..4 {
         out.push(BvAct::ExtPos(k));
     }
+    for k in 0..4 {
+        out.push(BvAct::Same(k));
+    }
 }
 
 fn apply_ref(bits: &mut Vec<bool>, a: BvAct) {
@@ -136,6 +142,7 @@ fn apply_ref(bits: &mut Vec<bool>, a: BvAct) {
                 bits[p] = true;
             }
         }
+        BvAct::Same(_) => {}
     }
 }
 
@@ -151,6 +158,10 @@ fn apply_real(b: &mut BitVectorMut, a: BvAct) {
             let n = b.len();
             b.extend(ext_pos(k, n))
         }
+        BvAct::Same(0) => *b = bincode::deserialize(&bincode::serialize(&*b).unwrap()).unwrap(),
+        BvAct::Same(1) => *b = BitVectorMut::from(BitVector::from(std::mem::take(b))),
+        BvAct::Same(2) => b.shrink_to_fit(),
+        BvAct::Same(_) => *b = b.iter().collect(),
     }
 }
 
